@@ -79,6 +79,25 @@ class _NpProxy:
     def issubdtype(self, a, b):
         return self._np.issubdtype(a, b)
 
+    def empty(self, shape, dtype=float, **kw):
+        """uninitialised memory of object arrays = fresh unconstrained symbols (not None)"""
+        arr = self._np.empty(shape, dtype=dtype, **kw)
+        if arr.dtype == object:
+            from symx.values import _State
+
+            p = _State.ctx
+            import z3
+
+            for idx in self._np.ndindex(*arr.shape):
+                p.fresh_n += 1
+                arr[idx] = SymReal(z3.Real(f"_junk{p.fresh_n}"))
+        return arr
+
+    def empty_like(self, a, dtype=None, **kw):
+        if dtype is None and isinstance(a, np.ndarray) and a.dtype == object:
+            return self.empty(a.shape, dtype=object)
+        return self._np.empty_like(a, dtype=dtype, **kw)
+
     def _objfn(self, name, x, symval):
         if self._has_sym(x):
             if isinstance(x, np.ndarray):
@@ -211,12 +230,12 @@ def make_grid(env, spec):
     def spacing(name, k):
         if geo == "sym":
             return env.real(name, hmin, hmax, lo_open=(hmin == 0))
-        return env.fixed(name, dy_vals[k]) if env.sym else dy_vals[k]
+        return dy_vals[k]
 
     def origin(name, k, lo=-2, hi=2):
         if geo == "sym":
             return env.real(name, lo, hi)
-        return env.fixed(name, org_vals[k]) if env.sym else org_vals[k]
+        return org_vals[k]
 
     if kind == "unit":
         grid = pde.UnitGrid(list(shape), periodic=list(spec.get("periodic", [False] * len(shape))))
@@ -234,7 +253,7 @@ def make_grid(env, spec):
     if kind in ("polar", "sph"):
         dr = spacing("dr", 0)
         if spec.get("hole"):
-            rin = env.real("rin", spec.get("rin_lo", 1), spec.get("rin_hi", 3)) if geo == "sym" else (env.fixed("rin", 1.5) if env.sym else 1.5)
+            rin = env.real("rin", spec.get("rin_lo", 1), spec.get("rin_hi", 3)) if geo == "sym" else 1.5
             radius = (rin, rin + shape[0] * dr)
         else:
             rin = 0
@@ -247,7 +266,7 @@ def make_grid(env, spec):
         dz = spacing("dz", 1)
         z0 = origin("z0", 1)
         if spec.get("hole"):
-            rin = env.real("rin", spec.get("rin_lo", 1), spec.get("rin_hi", 3)) if geo == "sym" else (env.fixed("rin", 1.5) if env.sym else 1.5)
+            rin = env.real("rin", spec.get("rin_lo", 1), spec.get("rin_hi", 3)) if geo == "sym" else 1.5
             radius = (rin, rin + shape[0] * dr)
         else:
             rin = 0
